@@ -393,8 +393,11 @@ where
         args: impl IntoIterator<Item = (VarNo, Option<bool>)>,
     ) -> Option<bool> {
         const ELEMENTS_PER_BLOCK: u32 = u32::BITS / 2;
-        // `choices` maps levels to the child number to choose
-        let mut choices = vec![0u32; manager.num_levels().div_ceil(ELEMENTS_PER_BLOCK) as usize];
+        // `choices` maps levels to the child number to choose. Variables
+        // without a value in `args` are unknown (child number 1).
+        const ALL_UNKNOWN: u32 = 0x5555_5555;
+        let mut choices =
+            vec![ALL_UNKNOWN; manager.num_levels().div_ceil(ELEMENTS_PER_BLOCK) as usize];
         for (var, val) in args {
             let level = manager.var_to_level(var);
             let block = &mut choices[(level / ELEMENTS_PER_BLOCK) as usize];
